@@ -68,6 +68,7 @@ def run(ctx):
                 jobs["mut3-" + m] = ex.submit(D.mutant_twin, ctx, "C04_MC", "C04_mut3_%s.cfg" % m, m + "-3", workers=3)
         G = lambda name, cfg, **kw: jobs.__setitem__(name, ex.submit(gen, ctx, cfg, "gen-" + name, **kw))
         G("schedA", "C04_schedA.cfg", workers=4)
+        G("schedD", "C04_schedD.cfg", workers=4)
         G("time", "C04_time.cfg", workers=2)
         G("menu", "C04_menu.cfg", workers=1)
         if quick:
@@ -85,15 +86,19 @@ def run(ctx):
         hist = unique(res["hist1"])
         n_exh = len(hist)
         hist = unique(hist + three(res["hist3-sim"]))[:n_exh + 220]
-        sched = unique(res["schedA"])
-        want_sched = 252
+        import random
+        d = sorted(unique(res["schedD"]), key=lambda c: c["id"])
+        if len(d) != 924:
+            raise D.Inconclusive("schedule generator emitted %d concat-style schedules, expected 924" % len(d))
+        sched = unique(res["schedA"]) + random.Random(ctx.seed).sample(d, 150)
+        want_sched = 252 + 150
     else:
         hist = unique(res["hist2"] + res["hist3s"])
         n_exh = len(hist)
         hist = unique(hist + three(res["hist3-sim"]))
-        sched = unique(res["schedA"] + res["schedB"])
+        sched = unique(res["schedA"] + res["schedB"] + res["schedD"])
         want_sched = len(sched)
-        if want_sched < 252 + 1716:
+        if want_sched < 252 + 1716 + 924:
             raise D.Inconclusive("schedule generator emitted %d exhaustive schedules" % want_sched)
         sched = unique(sched + res["sched3-sim"])
     if n_exh < (114 if quick else 114 + 114 * 114):
